@@ -36,10 +36,11 @@ def listing(home):
         for f in files:
             p = os.path.join(root, f)
             try:
-                size = os.path.getsize(p)
+                st_ = os.stat(p)
+                size, mode = st_.st_size, st_.st_mode & 0o777
             except OSError:
-                size = -1
-            out.append([os.path.normpath(os.path.join(rel, f)), size])
+                size, mode = -1, None
+            out.append([os.path.normpath(os.path.join(rel, f)), size, mode])
     return out
 
 
